@@ -329,7 +329,7 @@ def param_list(ctx):
                                 for pre in ('closed_session', 'rejected_open', 'disconnect_all'):
                                     ps.append({'impl': impl, 'grid': list(g), 'transport': tr, 'delays': list(seq), 'mode': mode,
                                                'monitor': True, 'send_at': None, 'after_idle': pre})
-                            if seq == () and mode == 'mute':
+                            if seq == () and mode == 'mute' and tuple(g) in [tuple(x) for x in GRID[:3]]:
                                 # the first PONG arrives twice, half an interval apart: every PONG restarts an interval of its own,
                                 # a peer that answers each PING it is sent is live
                                 for dl in ('zero', 'early'):
@@ -358,7 +358,10 @@ def run(ctx):
     bound = 1
     params = param_list(ctx)
     if not ctx.quick:
-        params = [dict(q, _free_switch=True) for q in params]
+        # (the long duplicate-PONG scenarios keep the charged cost model)
+        # likewise the crowds: with 3 / 5 sessions timing out in the same instant every ordering of their threads is a free choice
+        # (200 000 executions for 32 scenarios)
+        params = [q if (q.get('dup') or q.get('crowd')) else dict(q, _free_switch=True) for q in params]
     st, viols, samples, gate = core.run_search(Heartbeat, params, bound, ctx.workers, ctx.seed)
     # two deviations (a preempted heartbeat thread plus an early PONG) on a sharp subset: threaded server,
     # punctual peer answering at once, interval > timeout, monitoring on
